@@ -670,6 +670,184 @@ impl<'a, MutexType, T> Future for ChannelSendFuture<'a, MutexType, T> {''',
 
     /// Returns a stream''',
      'expect': {'C10': ['C10.R5']}},
+    # ---------------------------------------------------------------- C12
+    {'name': 'broadcast-takes-value', 'file': 'src/channel/oneshot_broadcast.rs',
+     'old': '''                match &self.value {
+                    Some(v) => {
+                        // A value was available inside the channel and was fetched.
+                        // TODO: If the same waiter asks again, they will always
+                        // get the same value, instead of `None`. Is that reasonable?
+                        Poll::Ready(Some(v.clone()))
+                    }''',
+     'new': '''                match self.value.take() {
+                    Some(v) => {
+                        Poll::Ready(Some(v))
+                    }''',
+     'expect': {'C12': ['C12.R2']}},
+    {'name': 'oneshot-send-does-not-fulfil', 'file': 'src/channel/oneshot.rs',
+     'old': '''        self.value = Some(value);
+        self.is_fulfilled = true;''',
+     'new': '''        self.value = Some(value);
+        self.is_fulfilled = !self.waiters.is_empty();''',
+     'expect': {'C12': ['C12.R1'], 'C11': ['C11.R1']}},
+    {'name': 'oneshot-send-no-wake', 'file': 'src/channel/oneshot.rs',
+     'old': '''        self.is_fulfilled = true;
+
+        // Wakeup all waiters
+        wake_waiters(&mut self.waiters);
+
+        Ok(())''',
+     'new': '''        self.is_fulfilled = true;
+
+        Ok(())''',
+     'expect': {'C12': ['C12.R1']}},
+    {'name': 'oneshot-none-before-fulfilled', 'file': 'src/channel/oneshot.rs',
+     'old': '''                        if self.is_fulfilled {
+                            Poll::Ready(None)''',
+     'new': '''                        if self.is_fulfilled || !self.waiters.is_empty() {
+                            Poll::Ready(None)''',
+     'expect': {'C12': ['C12.R3']}},
+    {'name': 'oneshot-waker-notified-state', 'file': 'src/channel/oneshot.rs',
+     'old': '''        waiter.state = RecvPollState::Unregistered;
+    });''',
+     'new': '''        waiter.state = if waiter.task.is_some() { RecvPollState::Notified } else { RecvPollState::Unregistered };
+    });''',
+     'expect': {'C12': ['C12.R5']}},
+    # ---------------------------------------------------------------- C13
+    {'name': 'state-deliver-le', 'file': 'src/channel/state_broadcast.rs',
+     'old': '''                    Some(ref v) if wait_node.state_id < self.state_id => {''',
+     'new': '''                    Some(ref v) if wait_node.state_id <= self.state_id => {''',
+     'expect': {'C13': ['C13.R2']}},
+    {'name': 'state-try-receive-swapped', 'file': 'src/channel/state_broadcast.rs',
+     'old': '''        if state_id < self.state_id {
+            Some((self.state_id, val.clone()))''',
+     'new': '''        if self.state_id > state_id || self.state_id < state_id {
+            Some((self.state_id, val.clone()))''',
+     'expect': {'C13': ['C13.R2']}},
+    {'name': 'state-returns-requested-id', 'file': 'src/channel/state_broadcast.rs',
+     'old': '''        if state_id < self.state_id {
+            Some((self.state_id, val.clone()))''',
+     'new': '''        if state_id < self.state_id {
+            Some((StateId(state_id.0 + 1), val.clone()))''',
+     'expect': {'C13': ['C13.R2']}},
+    {'name': 'state-send-no-wake', 'file': 'src/channel/state_broadcast.rs',
+     'old': '''        self.state_id.0 += 1;
+
+        // Wakeup all waiters
+        wake_waiters(&mut self.waiters);''',
+     'new': '''        self.state_id.0 += 1;''',
+     'expect': {'C13': ['C13.R1']}},
+    {'name': 'state-send-id-by-two-when-empty', 'file': 'src/channel/state_broadcast.rs',
+     'old': '''        self.state_id.0 += 1;''',
+     'new': '''        self.state_id.0 += 1;
+        if self.waiters.is_empty() { self.state_id.0 -= 1; }''',
+     'expect': {'C13': ['C13.R1']}},
+    {'name': 'state-none-while-newer', 'file': 'src/channel/state_broadcast.rs',
+     'old': '''        match wait_node.state {
+            RecvPollState::Unregistered => {
+                // The caller must wait for a value if either there is no value''',
+     'new': '''        match wait_node.state {
+            RecvPollState::Unregistered if self.is_closed => Poll::Ready(None),
+            RecvPollState::Unregistered => {
+                // The caller must wait for a value if either there is no value''',
+     'expect': {'C13': ['C13.R3'], 'C11': ['C11.R4']}},
+    # ---------------------------------------------------------------- C14
+    {'name': 'event-done-rechecks-is-set', 'file': 'src/sync/manual_reset_event.rs',
+     'old': '''                // have been reset it in the meantime.
+                Poll::Ready(())''',
+     'new': '''                // have been reset it in the meantime.
+                if self.is_set { Poll::Ready(()) } else { Poll::Pending }''',
+     'expect': {'C14': ['C14.R3']}},
+    {'name': 'event-reset-drains', 'file': 'src/sync/manual_reset_event.rs',
+     'old': '''    fn reset(&mut self) {
+        self.is_set = false;
+    }''',
+     'new': '''    fn reset(&mut self) {
+        self.is_set = false;
+        self.waiters.reverse_drain(|waiter| {
+            waiter.state = PollState::Done;
+        });
+    }''',
+     'expect': {'C14': ['C14.R2']}},
+    {'name': 'event-set-does-not-latch', 'file': 'src/sync/manual_reset_event.rs',
+     'old': '''                if let Some(handle) = waiter.task.take() {
+                    handle.wake();
+                }
+                waiter.state = PollState::Done;''',
+     'new': '''                if let Some(handle) = waiter.task.take() {
+                    handle.wake();
+                }
+                waiter.state = PollState::New;''',
+     'expect': {'C14': ['C14.R1']}},
+    {'name': 'event-set-no-wake', 'file': 'src/sync/manual_reset_event.rs',
+     'old': '''                if let Some(handle) = waiter.task.take() {
+                    handle.wake();
+                }
+                waiter.state = PollState::Done;''',
+     'new': '''                waiter.state = PollState::Done;''',
+     'expect': {'C14': ['C14.R1']}},
+    {'name': 'event-waiting-completes-if-set', 'file': 'src/sync/manual_reset_event.rs',
+     'old': '''                update_waker_ref(&mut wait_node.task, cx);
+                Poll::Pending
+            }
+            PollState::Done => {''',
+     'new': '''                update_waker_ref(&mut wait_node.task, cx);
+                if self.is_set { Poll::Ready(()) } else { Poll::Pending }
+            }
+            PollState::Done => {''',
+     'expect': {'C14': ['C14.R3']}},
+    {'name': 'event-is-set-inverted', 'file': 'src/sync/manual_reset_event.rs',
+     'old': '''    fn is_set(&self) -> bool {
+        self.is_set
+    }''',
+     'new': '''    fn is_set(&self) -> bool {
+        self.is_set || !self.waiters.is_empty()
+    }''',
+     'expect': {'C14': ['C14.R4']}},
+    # ---------------------------------------------------------------- C15
+    {'name': 'timer-swapped-compare', 'file': 'src/timer/timer.rs',
+     'old': '''                if now >= wait_node.expiry {''',
+     'new': '''                if wait_node.expiry >= now {''',
+     'expect': {'C15': ['C15.R1']}},
+    {'name': 'timer-check-expirations-early', 'file': 'src/timer/timer.rs',
+     'old': '''                if now >= first_expiry {''',
+     'new': '''                if now + 1 >= first_expiry {''',
+     'expect': {'C15': ['C15.R1', 'C15.R5', 'C15.R2']}},
+    {'name': 'timer-plain-add-deadline', 'file': 'src/timer/timer.rs',
+     'old': '''        now.saturating_add(duration_ms)''',
+     'new': '''        now + duration_ms''',
+     'expect': {'C15': ['C15.R5']}},
+    {'name': 'timer-remove-without-expired', 'file': 'src/timer/timer.rs',
+     'old': '''                    entry.state = PollState::Expired;
+                    if let Some(task) = entry.task.take() {''',
+     'new': '''                    if let Some(task) = entry.task.take() {''',
+     'expect': {'C15': ['C15.R2', 'C15.R6'], 'C01': ['C01.I1']}},
+    {'name': 'timer-next-expiration-not-min', 'file': 'src/timer/timer.rs',
+     'old': '''        unsafe { self.waiters.peek_min().map(|first| first.as_ref().expiry) }''',
+     'new': '''        unsafe { self.waiters.peek_min().map(|first| first.as_ref().expiry.saturating_add(1)) }''',
+     'expect': {'C15': ['C15.R3']}},
+    {'name': 'timer-ord-reversed', 'file': 'src/timer/timer.rs',
+     'old': '''        self.expiry.cmp(&other.expiry)''',
+     'new': '''        other.expiry.cmp(&self.expiry)''',
+     'expect': {'C15': ['C15.R4']}},
+    {'name': 'timer-not-due-keeps-scanning', 'file': 'src/timer/timer.rs',
+     'old': '''                    // Remaining timers are not expired
+                    break;''',
+     'new': '''                    // Remaining timers are not expired
+                    if entry.task.is_none() { entry.state = PollState::Expired; }
+                    break;''',
+     'expect': {'C15': ['C15.R2', 'C15.R1']}},
+    {'name': 'timer-expired-no-wake', 'file': 'src/timer/timer.rs',
+     'old': '''                    if let Some(task) = entry.task.take() {
+                        task.wake();
+                    }''',
+     'new': '''                    let _ = entry.task.take();''',
+     'expect': {'C15': ['C15.R2']}},
 ]
 
-BENIGN = []
+BENIGN = [
+    {'name': 'benign-oneshot-mem-replace', 'file': 'src/channel/oneshot.rs',
+     'old': '''                let maybe_val = self.value.take();''',
+     'new': '''                let maybe_val = core::mem::replace(&mut self.value, None);''',
+     'props': ['C12', 'C11', 'C08', 'C01']},
+]
